@@ -27,12 +27,7 @@ func vfC15Structure(c int) {
 	got := vfCoords(out)
 	vfAssert("same-number-of-coordinates", len(got) == len(want))
 	if _, isB := g.(orb.Bound); isB {
-		b := out.(orb.Bound)
-		// the projected bound is the box of the two projected corners
-		x1, y1 := vfUF2("fx", want[0], want[1]), vfUF2("fy", want[0], want[1])
-		x2, y2 := vfUF2("fx", want[2], want[3]), vfUF2("fy", want[2], want[3])
-		vfAssert("bound-is-box-of-projected-corners", vfAnd(vfAnd(b.Min[0] == vfIteF(x1 < x2, x1, x2), b.Max[0] == vfIteF(x1 > x2, x1, x2)), vfAnd(b.Min[1] == vfIteF(y1 < y2, y1, y2), b.Max[1] == vfIteF(y1 > y2, y1, y2))))
-		return
+		return // bounds: see vfC15Bound (affine projections with symbolic coefficients)
 	}
 	hasBound := false
 	var walk func(g orb.Geometry)
@@ -64,4 +59,37 @@ func vfC15Structure(c int) {
 		}
 	}
 	_ = strconv.Itoa
+}
+
+// ---- the projected bound is the box of the two projected corners: affine projections with
+// symbolic coefficients (axis flips and swaps included), natively replayable ----
+
+func vfC15Bound_N(tier int) int     { return 2 }
+func vfC15Bound_Label(c int) string { return []string{"axis-wise affine", "axis swap"}[c] }
+
+func vfC15Bound(c int) {
+	a, b, cc, d := vfReal("a"), vfReal("b"), vfReal("c"), vfReal("d")
+	f := func(p orb.Point) orb.Point { return orb.Point{a*p[0] + b, cc*p[1] + d} }
+	if c == 1 {
+		f = func(p orb.Point) orb.Point { return orb.Point{a*p[1] + b, cc*p[0] + d} }
+	}
+	bd := orb.Bound{Min: orb.Point{vfReal("minx"), vfReal("miny")}, Max: orb.Point{vfReal("maxx"), vfReal("maxy")}}
+	vfAssume(vfAnd(bd.Min[0] <= bd.Max[0], bd.Min[1] <= bd.Max[1]))
+	p1, p2 := f(bd.Min), f(bd.Max)
+	vfReach("bound")
+	check := func(id string, got orb.Bound) {
+		vfAssert(id+"-minx", got.Min[0] == vfIteF(p1[0] < p2[0], p1[0], p2[0]))
+		vfAssert(id+"-maxx", got.Max[0] == vfIteF(p1[0] > p2[0], p1[0], p2[0]))
+		vfAssert(id+"-miny", got.Min[1] == vfIteF(p1[1] < p2[1], p1[1], p2[1]))
+		vfAssert(id+"-maxy", got.Max[1] == vfIteF(p1[1] > p2[1], p1[1], p2[1]))
+	}
+	check("bound-helper", Bound(bd, f))
+	g := Geometry(bd, f)
+	gb, ok := g.(orb.Bound)
+	vfAssert("generic-returns-bound", ok)
+	if ok {
+		check("bound-generic", gb)
+	}
+	col := Geometry(orb.Collection{bd}, f).(orb.Collection)
+	check("bound-in-collection", col[0].(orb.Bound))
 }
